@@ -16,7 +16,7 @@ fn tilemap_sprite(w: u16, h: u16, tw: u16, th: u16, tile_count: u32, x: i16, y: 
         user_data: None,
     };
     let mut sets = TilesetsById::new();
-    if !stubs_probe() {
+    if cfg!(test) {
         // native replay: the real map holds the tileset; under Kani the static answers (stub_tilesets_get_static)
         sets.add(mk_tileset(TSID, tile_count, tw, th, Vec::new()));
     }
@@ -232,4 +232,74 @@ fn c08_q_tile_word_decode() {
     let t = crate::tile::Tile::new(&w, &h).unwrap();
     assert!(t.id() == u32::from_le_bytes(w) & mask, "tile id == word & id mask");
     kani::cover!(mask == 0x1fff_ffff && t.id() == 5);
+}
+
+static mut TM_CALLS: usize = 0;
+static mut TM_ARGS: (u8, u8, u8) = (0, 0, 0); // outer opacity, cel opacity, blend mode
+/// Recording stand-in for write_tilemap_cel_to_image: notes the arguments write_cel hands to the tilemap rasteriser
+/// (what the rasteriser does with them is decided by c08_q_tilemap_raster_*).
+pub(crate) fn recording_write_tilemap_cel(
+    _image: &mut RgbaImage,
+    cel_data: &CelCommon,
+    _tilemap_data: &TilemapData,
+    _tileset: &Tileset,
+    _pixels: &[Rgba<u8>],
+    blend_mode: &BlendMode,
+    outer_opacity: u8,
+) {
+    unsafe {
+        TM_CALLS += 1;
+        TM_ARGS = (outer_opacity, cel_data.opacity, *blend_mode as u8);
+    }
+}
+pub(crate) fn never_write_raw_cel(_i: &mut RgbaImage, _c: &CelCommon, _s: &crate::cel::ImageSize, _p: &[Rgba<u8>], _b: &BlendMode, _o: u8) {
+    // a tilemap cel is never handed to the image-cel rasteriser
+    kani::assume(false);
+}
+
+/// the tilemap cel THROUGH write_cel (the route of Tilemap::image / Cel::image / Frame::image): the tilemap rasteriser is
+/// called exactly once, with the LAYER's opacity, the cel's own opacity and the layer's blend mode -- so that, by
+/// c08_q_tilemap_raster_*, the opacity product is applied exactly once. Under Kani the rasteriser is the recorder
+/// above; in a native replay (cfg(test), no stubs) the same is observed through the image with the real Normal blend.
+#[kani::proof]
+#[kani::unwind(6)]
+#[kani::stub(alloc::fmt::format, crate::vklib::empty_format)]
+#[kani::stub(std::hash::RandomState::new, crate::vklib::fixed_random_state)]
+#[kani::stub(crate::tileset::TilesetsById::get, crate::vklib::stub_tilesets_get_static)]
+#[kani::stub(crate::palette::ColorPalette::color, crate::vklib::stub_color_none)]
+#[kani::stub(crate::pixel::Pixels::clone_as_image_rgba, crate::vklib::stub_clone_rgba_only)]
+#[kani::stub(crate::file::write_tilemap_cel_to_image, crate::file::vk_c08::recording_write_tilemap_cel)]
+#[kani::stub(crate::file::write_raw_cel_to_image, crate::file::vk_c08::never_write_raw_cel)]
+fn c08_q_tilemap_cel_through_write_cel() {
+    let (lop, cop): (u8, u8) = (kani::any(), kani::any());
+    let px: [Rgba<u8>; 2] = [any_px(), any_px()];
+    let id: u32 = kani::any();
+    kani::assume(id < 2);
+    let mode = if cfg!(test) { BlendMode::Normal } else { any_blend_mode() };
+    let ld = LayersData::from_vec(vec![mk_layer(1, 0, mode, lop, LayerType::Tilemap(TSID))]).unwrap();
+    let cel = RawCel {
+        data: CelCommon { layer_index: 0, x: 0, y: 0, opacity: cop },
+        content: CelContent::Tilemap(mk_tilemap_data(1, 1, &[id])),
+        user_data: None,
+    };
+    let mut sets = TilesetsById::new();
+    if cfg!(test) {
+        sets.add(mk_tileset(TSID, 2, 1, 1, vec![px[0], px[1]]));
+    } else {
+        set_static_tileset(TSID, mk_tileset(TSID, 2, 1, 1, vec![px[0], px[1]]));
+    }
+    let file = mk_file(1, 1, 1, PixelFormat::Rgba, ld, mk_cels(vec![vec![Some(cel)]]), sets, Vec::new());
+    let img = file.cel(0, 0).image();
+    assert!(img.width() == 1 && img.height() == 1);
+    if cfg!(test) {
+        let exp = crate::blend::normal(Rgba([0, 0, 0, 0]), px[id as usize], mul8_ref(lop, cop));
+        assert!(px_equiv(img.get_pixel(0, 0), &exp), "tilemap cel image pixel == the stored tile's pixel, alpha scaled ONCE by round(lo*co/255)");
+    } else {
+        let (calls, args) = unsafe { (TM_CALLS, TM_ARGS) };
+        assert!(calls == 1, "the tilemap rasteriser is called exactly once");
+        assert!(args.0 == lop && args.1 == cop && args.2 == mode as u8, "with the layer's opacity, the cel's own opacity and the layer's mode");
+    }
+    kani::cover!(cop == 128 && lop == 255 && id == 1);
+    kani::cover!(cop == 255 && lop == 100);
+    core::mem::forget(file);
 }
